@@ -66,6 +66,7 @@ def split_goal(hyps: list, goal) -> list[tuple[list, Any]]:
 
 
 _BASE = None
+RLIMIT_PER_MS = 4000
 
 
 def base_axioms() -> list:
@@ -74,7 +75,12 @@ def base_axioms() -> list:
 
 def check(hyps: list, goal, timeout_ms: int, use_lemmas: bool = True, seed: int = 0):
     s = z3.Solver()
-    s.set("timeout", timeout_ms)
+    # The budget is a z3 resource limit (deterministic: ~4000 units per millisecond on this machine), not wall-clock time:
+    # verdicts do not depend on how busy the machine is, and no timer thread is involved - z3's cancel flag is shared by
+    # all solvers of a context, and a timer that fires late leaves later, unrelated queries "canceled" for good.  The
+    # wall-clock timeout stays as a distant safety net only.
+    s.set("rlimit", int(timeout_ms) * RLIMIT_PER_MS)
+    s.set("timeout", max(8 * int(timeout_ms), 60000))
     s.set("random_seed", seed)
     for a in (base_axioms() if use_lemmas else spec.axioms()):
         s.add(a)
@@ -88,6 +94,13 @@ def check(hyps: list, goal, timeout_ms: int, use_lemmas: bool = True, seed: int 
     t0 = time.time()
     r = s.check()
     dt = time.time() - t0
+    for _ in range(3):
+        # a late timer of an earlier query of this context can cancel this one at once (shared cancel flag): ask again
+        if not (r == z3.unknown and s.reason_unknown() == "canceled" and dt < min(0.25, timeout_ms / 4000)):
+            break
+        t1 = time.time()
+        r = s.check()
+        dt = time.time() - t1
     return r, s, dt
 
 
@@ -98,7 +111,8 @@ def _plain_symbols(smt2: str) -> str:
 
     def san(m):
         return "q_" + re.sub(r"[^A-Za-z0-9_!.]", lambda c: f"_{ord(c.group(0)):x}_", m.group(1))
-    return re.sub(r"\|([^|]*)\|", san, smt2)
+    # (z3 also prints the prime of post-state names like self'!7 unquoted, which is not a simple symbol)
+    return re.sub(r"\|([^|]*)\|", san, smt2).replace("'", "_prime_")
 
 
 def cvc5_check(smt2: str, timeout_s: int) -> str:
@@ -257,7 +271,8 @@ def finite_candidate(hyps: list, goal, params: dict, max_len: int = 6, timeout_m
             return f.decl()(*[inst(c, depth) if c.sort() == z3.BoolSort() else c for c in f.children()])
         return f
     s = z3.Solver()
-    s.set("timeout", max(1000, int((t_end - time.time()) * 1000)))
+    s.set("rlimit", max(1000, int((t_end - time.time()) * 1000)) * RLIMIT_PER_MS)
+    s.set("timeout", 120000)
     try:
         for f in forms:
             s.add(inst(f))
